@@ -323,6 +323,25 @@ func famC02(rn *Runner) {
 			}
 			rn.CheckQuery(q, "predicate numbering / context size / filter expressions", nonEmptyNodes)
 		}
+		// a filter expression with a RELATIVE operand inside a step predicate: the operand is evaluated anew for every context node
+		// (every axis x [1], [2], [last()]; no random draw)
+		for _, ax := range allAxes {
+			for pi, pr := range []Expr{num("1"), num("2"), call("last")} {
+				t := NodeTest{Kind: "node"}
+				if ax == "child" || ax == "attribute" || ax == "descendant" {
+					t = NodeTest{Kind: "any"}
+				}
+				f := &EFilter{E: &EPath{Steps: []*Stp{{Axis: ax, Test: t}}}, Preds: []Expr{pr}}
+				var e Expr = &EPath{Abs: true, Steps: []*Stp{{Axis: "descendant-or-self", Test: NodeTest{Kind: "node"}, Abbrev: true}, {Axis: "child", Test: NodeTest{Kind: "any"}, Abbrev: true, Preds: []Expr{f}}}}
+				if pi == 1 {
+					// the same operand text twice in one query, and the filtered node used further
+					e = &EPath{Abs: true, Steps: []*Stp{{Axis: "descendant-or-self", Test: NodeTest{Kind: "node"}, Abbrev: true}, {Axis: "child", Test: NodeTest{Kind: "any"}, Abbrev: true,
+						Preds: []Expr{bin("=", call("count", &EFilter{E: f.E, Preds: []Expr{num("1")}, Steps: []*Stp{{Axis: "ancestor-or-self", Test: NodeTest{Kind: "node"}}}}), call("count", &EPath{Steps: []*Stp{{Axis: "ancestor-or-self", Test: NodeTest{Kind: "node"}}}}))}}}}
+				}
+				rn.CheckQuery(&QCase{Doc: d, Start: Path{}, Env: env, E: e, Text: Render(e, RenderOpts{}), Family: "filter-expr-in-predicate"},
+					"a filter expression in a predicate is evaluated for each context node", nonEmptyNodes)
+			}
+		}
 		// metamorphic pairs on the implementation alone
 		for i := 0; i < rn.Scale(150, 500) && !rn.TooMany(); i++ {
 			base := g.Path(1, 0)
@@ -562,6 +581,20 @@ func famC18(rn *Runner) {
 					rn.Sample(q.Text + " from " + start.String())
 				}
 				rn.CheckQuery(q, "Exec from any cursor uses it as context node, position 1, size 1", nonEmptyNodes)
+			}
+		}
+		// lang() as a sub-query from every node, in a predicate of a relative step and as a function step (no random draw): what it
+		// answers depends on this document's xml:lang attributes, whatever was asked of earlier documents
+		for pi, start := range d.Paths {
+			if pi >= 60 {
+				break
+			}
+			l := []string{"en", "fr", "zh", "en-US", "de"}[pi%5]
+			for _, e := range []Expr{call("lang", lit(l)),
+				call("count", &EPath{Steps: []*Stp{{Axis: "descendant-or-self", Test: NodeTest{Kind: "node"}, Preds: []Expr{call("lang", lit(l))}}}}),
+				&EPath{Steps: []*Stp{{Axis: "ancestor-or-self", Test: NodeTest{Kind: "any"}}, {IsCall: true, Q: RawQ{Local: "lang"}, Args: []Expr{lit(l)}}}}} {
+				rn.CheckQuery(&QCase{Doc: d, Start: start, Env: env, E: e, Text: Render(e, RenderOpts{}), Family: "sub-query"},
+					"lang() from any cursor looks at that cursor's own ancestors", nil)
 			}
 		}
 		// composition: P/R from the root = union of R from each node of P
